@@ -1,5 +1,5 @@
 //! E2 + E3: derived declarations. C02 (round trip + translation validation of the macro expansion).
-use crate::run::{drive, parallel, regen as regen_case, tag_seed, to_json, Cx, Verdict};
+use crate::run::{drive, parallel, tag_seed, to_json, Cx, Verdict};
 use crate::PropResult;
 use proptest::prelude::*;
 use proptest::strategy::BoxedStrategy;
@@ -210,7 +210,7 @@ pub fn run_c02(cx: &Cx) -> PropResult {
                 continue;
             }
             let strat = compiled_strategy(d);
-            let stream = 10 + (i as u64 % 200);
+            let stream = 10 + i as u64;
             if drive(tag_seed(derive_seed(cx.seed, cx.prop, i as u64, 7), stream), &strat, per_decl, acc, &|c: &DeclCase| to_json(c), &mut |c, a, r| check_c02(c, a, r)) {
                 return;
             }
@@ -234,20 +234,6 @@ pub fn run_c02(cx: &Cx) -> PropResult {
 pub fn replay_c02(case: &Value) -> Verdict {
     let c: DeclCase = serde_json::from_value(case.clone()).expect("replay case");
     check_c02(&c, &mut Acc::new(), false)
-}
-
-pub fn regen_c02(cx: &Cx, shard: usize, stream: u64, index: u64) -> Option<Value> {
-    if stream == 1 {
-        return Some(to_json(&regen_case(tag_seed(derive_seed(cx.seed, cx.prop, shard as u64, 1), 1), &interpreted_strategy(), index)));
-    }
-    // compiled streams: find the declaration of this shard whose stream tag matches
-    let all = batch().all();
-    for (i, d) in all.iter().enumerate() {
-        if i % cx.shards == shard && 10 + (i as u64 % 200) == stream {
-            return Some(to_json(&regen_case(tag_seed(derive_seed(cx.seed, cx.prop, i as u64, 7), stream), &compiled_strategy(d), index)));
-        }
-    }
-    None
 }
 
 // ------------------------------------------------------------------------------------------------ C13
@@ -641,7 +627,7 @@ pub fn run_c14(cx: &Cx) -> PropResult {
                 continue;
             }
             let strat = transient_compiled_strategy(d);
-            if drive(tag_seed(derive_seed(cx.seed, cx.prop, i as u64, 7), 10 + (i as u64 % 200)), &strat, per_decl, acc, &|c: &TransientCase| to_json(c), &mut |c, a, r| check_c14(c, a, r)) {
+            if drive(tag_seed(derive_seed(cx.seed, cx.prop, i as u64, 7), 10 + i as u64), &strat, per_decl, acc, &|c: &TransientCase| to_json(c), &mut |c, a, r| check_c14(c, a, r)) {
                 return;
             }
             acc.bump("compiled_declarations_with_transient_parts", 1);
